@@ -461,6 +461,18 @@ func c13(run *core.Run, replay string) {
 			add(trCase{T: "TEXT", Entropy: ent, Shape: "wordlist", Size: sz / 2, Seed: run.Seed + int64(si), BMul: 1 + si})
 		}
 	}
+	// literal runs whose length sits on the boundaries of the LZ-family length fields (1 / 3 / 4-byte forms): the run is k random
+	// bytes plus the first occurrence of the pattern that follows (about 45 more bytes), so k sweeps a window below the boundary
+	for ti, t := range []string{"LZ", "LZX", "LZP", "ROLZ", "ROLZX"} {
+		for _, base := range []int{254, 65536 + 254} {
+			for k := base - 70; k <= base+40; k++ {
+				if !run.Thorough() && base == 254 && (k+ti)%2 != 0 {
+					continue
+				}
+				add(trCase{T: t, Entropy: "ANS0", Shape: fmt.Sprintf("litrun:%d", k), Size: k + 3000 + 7*(k%32), Seed: run.Seed + int64(k%5)})
+			}
+		}
+	}
 	// executable-looking blocks with garbage headers: each instance draws different header fields, so many seeds per shape
 	nbogus := run.Pick(120, 1500)
 	for i := 0; i < nbogus; i++ {
